@@ -1333,9 +1333,16 @@ class LogixDriver(CIPDriver):
             if tag_info["data_type"] is None:  # the controller reported a type code that is not in DataTypes
                 raise RequestError(f"Tag has an unsupported data type: {request_tag}")
 
+            if bit is not None:  # tag.N addresses bit N of an integer: N must be a bit of that integer
+                _bit_type = DataTypes.get(tag_info["data_type"]) if tag_info["tag_type"] == "atomic" else None
+                if _bit_type is None or not getattr(_bit_type, "size", 0) or not 0 <= bit < _bit_type.size * 8:
+                    raise RequestError(f"Invalid bit number for {tag_info['data_type_name']}: {request_tag}")
+
             if tag_info["data_type"] == "DWORD":
                 _tag, idx = util.get_array_index(tag)
                 if idx is not None:
+                    if idx < 0:
+                        raise RequestError(f"Invalid element index: {request_tag}")
                     tag = f"{_tag}[0]" if rw == "r" else f"{_tag}[{idx // 32}]"
                 bit = idx
                 bool_elements = None if implicit_element or elements == 1 else elements
